@@ -25,7 +25,7 @@ def _cvc5_text(text):
     return text
 
 
-def run_one(name, text, timeout=10, want_model=False, solvers=None):
+def run_one(name, text, timeout=10, want_model=False, solvers=None, prefer=None):
     os.makedirs(WORK, exist_ok=True)
     h = hashlib.sha1((name + text).encode()).hexdigest()[:16]
     path = os.path.join(WORK, 'ob_%s.smt2' % h)
@@ -34,7 +34,8 @@ def run_one(name, text, timeout=10, want_model=False, solvers=None):
     tried = []
     total = 0.0
     verdict, by, out = 'unknown', None, ''
-    for sname, mk in SOLVERS:
+    order = sorted(SOLVERS, key=lambda x: 0 if x[0] == prefer else 1) if prefer else SOLVERS
+    for sname, mk in order:
         if solvers and sname not in solvers:
             continue
         t0 = time.time()
@@ -63,11 +64,31 @@ def run_one(name, text, timeout=10, want_model=False, solvers=None):
                 output=out[:4000])
 
 
+_PREFER = None
+
+
+def preferred():
+    """solver that discharged each obligation when the baseline was recorded (tried first: stable and fast)"""
+    global _PREFER
+    if _PREFER is None:
+        _PREFER = {}
+        try:
+            import json
+            base = json.load(open(os.path.join(os.path.dirname(os.path.dirname(os.path.abspath(__file__))), 'baseline_obligations.json')))
+            for fn in base.values():
+                for n, v in fn.get('solver', {}).items():
+                    _PREFER[n] = v
+        except (OSError, ValueError):
+            pass
+    return _PREFER
+
+
 def run_many(obls, timeout=10, jobs=None, solvers=None):
     """obls: list of (name, smt_text). Returns list of result dicts in the same order."""
     jobs = jobs or min(16, os.cpu_count() or 4)
+    pref = preferred()
     with ThreadPoolExecutor(max_workers=jobs) as ex:
-        futs = [ex.submit(run_one, n, t, timeout, False, solvers) for n, t in obls]
+        futs = [ex.submit(run_one, n, t, timeout, False, solvers, pref.get(n)) for n, t in obls]
         return [f.result() for f in futs]
 
 
